@@ -27,6 +27,7 @@ type Engine struct {
 	unrolled  map[string]int // bounded-mode loop unrolling (unused in proof mode)
 	globals   map[*ssa.Global]*Cell
 	usedSpecContracts map[*ssa.Function]bool
+	world     *Cell
 }
 
 func NewEngine(ld *Loaded) *Engine {
